@@ -35,7 +35,11 @@ struct Pair {
 void left_right_test() {
   set_op_names(kOps, 3);
   const int W = (int)opt("writers", 1), U = (int)opt("updates", 2), Rn = (int)opt("readers", 1), L = (int)opt("loads", 2);
-  auto* lr = new xenium::left_right<Pair>();
+  // --opt ctor: 0 default constructed, 1 left_right(source), 2 left_right(left, right) - both instances start at `init`
+  const int ctor = (int)opt("ctor", 0), init = ctor ? 3 : 0;
+  Pair ini;
+  ini.a = ini.b = init;
+  auto* lr = ctor == 0 ? new xenium::left_right<Pair>() : ctor == 1 ? new xenium::left_right<Pair>(ini) : new xenium::left_right<Pair>(ini, ini);
   for (int w = 0; w < W; w++)
     spawn([=] {
       for (int i = 0; i < U; i++) {
@@ -54,12 +58,20 @@ void left_right_test() {
     spawn([=] {
       for (int i = 0; i < L; i++) {
         op_begin(2);
-        long v = lr->read([](const Pair& p) {
-          int a = p.a, b = p.b;
-          if (a != b) fail("TORN", "read functor saw a half-updated instance: a=%d b=%d", a, b);
-          return (long)a;
-        });
-        op_end(v);
+        long v;
+        if (i & 1) {
+          // a functor that returns a reference: read() must hand out a copy made while the reader is still registered
+          // (return type auto, i.e. decayed) - a reference into the instance would be read after the guard has departed
+          Pair snap = lr->read([](const Pair& p) -> const Pair& { return p; });
+          if (snap.a != snap.b) fail("TORN", "snapshot returned by read() is half-updated: a=%d b=%d", snap.a, snap.b);
+          v = snap.a;
+        } else
+          v = lr->read([](const Pair& p) {
+            int a = p.a, b = p.b;
+            if (a != b) fail("TORN", "read functor saw a half-updated instance: a=%d b=%d", a, b);
+            return (long)a;
+          });
+        op_end(v - init);
       }
     });
   join_all();
@@ -72,12 +84,12 @@ void left_right_test() {
     n++;
   });
   op_end();
-  int total = W * U;
+  int total = W * U + init;
   if (n != 2 || seen[0] != total * 1001 || seen[1] != total * 1001)
     fail("ORACLE", "after %d updates the two instances hold %d and %d (encoded a*1000+b)", total, seen[0], n > 1 ? seen[1] : -1);
   op_begin(2);
   long v = lr->read([](const Pair& p) { return (long)p.a; });
-  op_end(v);
+  op_end(v - init);
   delete lr;
   lin::require_linearizable(RegisterSpec{}, "an atomic counter (reads linearizable with updates)");
 }
